@@ -128,7 +128,7 @@ class Result:
 
 
 def run_sim(binary, argv, plan=None, cwd=None, stdin=None, env=None, timeout=120, cpu=20,
-            stdout_path=None, trace_size=None, scratch=None):
+            stdout_path=None, trace_size=None, scratch=None, umask=None):
     """Run one simulated process. plan: text or None (no plan = pass-through)."""
     e = {"PATH": "/usr/bin:/bin", "LC_ALL": "C", "TZ": "UTC", "HOME": "/nonexistent"}
     if env:
@@ -152,7 +152,8 @@ def run_sim(binary, argv, plan=None, cwd=None, stdin=None, env=None, timeout=120
     fout = open(stdout_path, "wb") if stdout_path else subprocess.PIPE
     try:
         p = subprocess.Popen([binary] + list(argv), cwd=cwd, env=e, stdin=fin, stdout=fout,
-                             stderr=subprocess.PIPE, start_new_session=True)
+                             stderr=subprocess.PIPE, start_new_session=True,
+                             preexec_fn=(lambda: os.umask(umask)) if umask is not None else None)
         try:
             out, err = p.communicate(timeout=timeout)
         except subprocess.TimeoutExpired:
